@@ -127,6 +127,13 @@ FAMILIES = [
     ('unhashable-argument-inside-shared-rule',
      lambda k: 'OneOf(xs) = /[a-z]/ where `lambda c: c in xs`\nItem = [OneOf(`[\'a\', \'b\']`), Opt(Item)]\n'
                'start = [Item, "x"] | [Item, "y"] | [Expect(Item), Item, "z"] | Item\n'),
+    # a rule referenced from exactly ONE place, reached at one position from evaluations of the enclosing rule that
+    # started at different positions
+    ('single-reference-rule', lambda k: '```\nimport collections\nCALLS = collections.Counter()\ndef note(x):\n    CALLS[x] += 1\n    return x\n```\n'
+                                        'start = (Item | /\\d/)*\nItem = Num+ << "!"\nNum = /\\d/ |> `note`\n'),
+    # a parameterless rule referred to with empty parentheses and without, at one position
+    ('empty-parentheses-reference', lambda k: '```\nimport collections\nCALLS = collections.Counter()\ndef note(x):\n    CALLS[x] += 1\n    return x\n```\n'
+                                              'start = (X() << "b") | (X << "c") | [Expect(X()), X]\nX = /[a-z]/ |> `note`\n'),
     ('side-effect', lambda k: '```\nimport collections\nCALLS = collections.Counter()\ndef note(x):\n    CALLS[x] += 1\n    return x\n```\nstart = [A, "x"] | [A, "y"] | A\nA = /[a-z]+/ |> `note`\n'),
 ]
 
@@ -143,6 +150,10 @@ def grammar_stream(R_, tier, rnd):
                 text = '(' * n + 'a' + ')' * n
             elif name == 'exp-alternatives':
                 text = 'a' * n
+            elif name == 'single-reference-rule':
+                text = ''.join(str(i % 10) for i in range(min(n, 40)))
+            elif name == 'empty-parentheses-reference':
+                text = 'ac' if n % 2 else 'az' 
             else:
                 text = 'ab' * n
             counts = {}
@@ -157,7 +168,7 @@ def grammar_stream(R_, tier, rnd):
             for rn in rules:
                 orig[rn] = getattr(g, '_try_' + rn)
                 setattr(g, '_try_' + rn, wrap(rn, orig[rn]))
-            if name == 'side-effect':
+            if hasattr(g, 'CALLS'):
                 g.CALLS.clear()
             try:
                 try:
@@ -184,6 +195,11 @@ def grammar_stream(R_, tier, rnd):
             if total > len(rules) * (len(text) + 1):
                 R_.counterexample('grammar-families', 'bound-exceeded', case,
                                   f'<= {len(rules)} x {len(text) + 1}', total)
+            if name in ('single-reference-rule', 'empty-parentheses-reference') and hasattr(g, 'CALLS') and \
+                    sum(g.CALLS.values()) > len(text):
+                # the callback sits in a rule body that consumes one character: more calls than positions = some position twice
+                R_.counterexample('grammar-families', 'side-effect-repeated', case, 'inline Python of a rule body at most once per position',
+                                  {'calls': sum(g.CALLS.values()), 'positions': len(text)})
             if name == 'side-effect' and sum(g.CALLS.values()) > len([k for k in counts if k[0] == 'A']):
                 R_.counterexample('grammar-families', 'side-effect-repeated', case, 'inline Python once per position', dict(g.CALLS))
             R_.extra.setdefault('evaluation_counts', {})[f'{name}/{len(text)}'] = [total, len(rules) * (len(text) + 1), outcome]
